@@ -1,6 +1,7 @@
 from props import job
 
 PROP = dict(
+    technique='the C01 state machine with generated cuts (drop in-flight messages, reload both, reestablish); model-based oracle for exactly-what-is-missing retransmission incl. order; acceptance of every retransmitted message',
     level="fault_enumeration",
     rule=("C01's generated schedules plus a `cut` action at generated points (also exactly between receiving a "
           "commit_sig and revoking): everything in flight is dropped, both sides are rebuilt from their databases and "
